@@ -194,7 +194,8 @@ def reprobe_event(tree, persistent, text, after):
 def events_for_text(job):
     """all probe + step events of one start text (every rule instance, every applicable node).
     One set of rule objects is used for the whole text, as a search agent would."""
-    text, want_probe = job
+    text, want_probe = job[0], job[1]
+    second = len(job) > 2 and job[2]
     try:
         t0 = parse(text)
     except BaseException:  # noqa
@@ -202,6 +203,7 @@ def events_for_text(job):
     out = []
     persistent = rules()
     n = len(inorder(t0))
+    firsts = []
     for name, opt, rule in persistent:
         if want_probe:
             out.append(probe_event(t0, name, opt, rule, text))
@@ -210,11 +212,80 @@ def events_for_text(job):
             if ev is None:
                 continue
             out.append(ev)
+            if result_root is not None and ev["outcome"] == "ok":
+                firsts.append((name, k, result_root, ev["printed"]))
             if want_probe and result_root is not None and ev["outcome"] == "ok":
                 try:
                     out.append(reprobe_event(result_root, persistent, text, "%s@%d" % (name, k)))
                 except BaseException:  # noqa
                     pass
+                # the same application done IN PLACE on a tree every rule object has already been asked about:
+                # the very node objects are re-linked under the rules' feet, then everything is asked again
+                try:
+                    tree2 = t0.clone()
+                    nodes2 = inorder(tree2)
+                    for _, _, r in persistent:
+                        for n2 in nodes2:
+                            try:
+                                r.can_apply_to(n2)
+                            except BaseException:  # noqa
+                                pass
+                    if rule.can_apply_to(nodes2[k]):
+                        root2 = rule.apply_to(nodes2[k]).result.get_root()
+                        out.append(reprobe_event(root2, persistent, text, "inplace:%s@%d" % (name, k)))
+                except BaseException:  # noqa
+                    pass
+                # ... and with each surviving ancestor as the LAST node every rule object was asked about
+                try:
+                    seen_anc = set()
+                    for up in (1, 2, 99):
+                        tree3 = t0.clone()
+                        nodes3 = inorder(tree3)
+                        target = nodes3[k]
+                        anc = target
+                        for _ in range(up):
+                            if anc.parent is None:
+                                break
+                            anc = anc.parent
+                        pos = nodes3.index(anc)
+                        if anc is target or pos in seen_anc:
+                            continue
+                        seen_anc.add(pos)
+                        for _, _, r in persistent:
+                            try:
+                                r.can_apply_to(anc)
+                            except BaseException:  # noqa
+                                pass
+                        rule.apply_to(target)
+                        if anc.parent is None and anc is not tree3 and False:
+                            continue
+
+                        def one(rs):
+                            row = []
+                            for _, _, r in rs:
+                                try:
+                                    row.append([bool(r.can_apply_to(anc))])
+                                except BaseException:  # noqa
+                                    row.append([False])
+                            return row
+                        used = one([x for x in persistent if x[2] is not rule])
+                        fresh = one([x for x, y in zip(rules(), persistent) if y[2] is not rule])
+                        out.append({"typ": "reprobe", "rule": "inplace-ancestor:%s@%d" % (name, k), "opt": "", "text": text, "k": 0, "used": used, "fresh": fresh})
+                except BaseException:  # noqa
+                    pass
+    if second and firsts:
+        # a second step from some of the results, with the SAME rule objects (a two-step derivation)
+        step = max(1, len(firsts) // 3)
+        for name1, k1, root1, printed1 in firsts[::step][:3]:
+            m = len(inorder(root1))
+            if m > 40:
+                continue
+            for name, opt, rule in persistent:
+                for k in range(m):
+                    ev, _ = step_event(root1, name, opt, rule, k, "%s  =[%s@%d]=>  %s" % (text, name1, k1, printed1))
+                    if ev is not None:
+                        ev["second"] = [text, name1, k1]
+                        out.append(ev)
     return out
 
 
@@ -236,6 +307,22 @@ def term_level(nleaves, terms):
                 out.add("%s %s (%s %s %s)" % (a, o, b, o2, c))
                 out.add("(%s %s %s) %s %s" % (a, o, b, o2, c))
     return sorted(out)
+
+
+# the "alternate tree forms" of the rule documentation and code comments, their additive analogues, and value classes
+# that small exhaustive sets do not reach (decimals with a composite integer part, tiny decimals, four-leaf chains)
+FORMS = ["5 * (8h * t)", "(7 * 10y^3) * x", "(7q * 10y^3) * x", "792z^4 * 490f * q^3", "(u^3 * 36c^6) * 7u^3", "(4 + p) + p", "p + (p + 2x)",
+         "5 + ((3 + x) + y)", "5 + (3 + (x + y))", "(5 + 3x) + (2 + y)", "5 * ((3 * x) * y)", "(y * 2x) * 3x", "5 + (4y * 2x^2) * 3x^3", "(2x * 3) * y^2",
+         "(2 * 3x) * (4 * y)", "4x * 2y * 5x * 3y", "(36c^6 * u^3) * 7u^3", "2x * (3x * y)", "(y * x) * x^2", "(x^2 * y) * (x * 4)",
+         "(4 + p) + 2p", "(y + 4x) + 3x", "y + (4x + 3x)", "(2x + y) + (3x + z)", "2x + (y + 3x)", "(2x + (3x + y)) + z", "4x + 2 * 3x",
+         "6.5 + 4", "3 * (9.75 + 6) + y", "9.75 + 6.5", "2.5 + 10", "12.5x + 2.5x", "6.5x + 4x", "0.75y^2 + 2.25y^2",
+         "x * (0.0000004 * 0.0000002)", "(0.000002 / 3000000) * x + y", "0.00005x + 1", "0.001 * 0.02 + x", "0.0001x + 0.0002x", "1000000 * 0.000001x",
+         "x - 3^2 * x", "a - 3^2", "-(3^2) * x", "4 - -(x * y)", "3 / -((x + 1) * y)", "(x^2)^3 * x", "(x^y)^z", "2^(x^2)",
+         "7 - (2 + 3)", "7 - (2 - x)", "7 / (2 / x)", "7 / (2 * x)", "2 ^ (3 ^ x)", "5 - (3 - x)", "8 / (4 / x)", "5 + (3 - x)", "5 * (3 / x)", "5 + (3 + -1x)",
+         "x^0 * x^2", "x^(2 - 2) * x^3", "x^0 + x^0", "0x + 0x", "1x * 1x", "-x * -x", "-x + -x", "x^-1 * x", "2x^-2 * 3x^2"]
+EQ_FORMS = ["x + -2y^2 = 3", "7 = 4x + -y^3", "-2x^2 + 1 = 9", "x + -0.5y^3 = 2", "2 * ((x + 1) + 5) = 20", "((x + 1) + 5)^2 = 4", "-((x + 1) + 5) = 3", "4 - ((x + 1) + y) = 0",
+            "((x + 1) + 5) / 2 = y", "sgn((x + 1) + 2) = 1", "3x = 6 + 9y", "7 = 2 + 4x + y", "a + (3b + c) = 9", "7 = x + 2 + y", "y + (x + 2) = 7", "3 = x + 2 + 7",
+            "2 * 3x = 12", "(2 * 3)x = 12", "x + 2 = 5", "3y + x = 7 + 2x", "2x + 3x = 10", "x * x = 4", "0.5x = 0.25", "-3x = 9", "x / 2 + 1 = 3", "2(x + 1) + 3 = 9"]
 
 
 def contexts(texts, rng, n):
